@@ -11,6 +11,7 @@ import itertools
 import re
 
 from common import Case, W, hexs, unhexs, plist, tf, errname, rand_value, harvest_literals
+import common
 import platform_cases
 import netaddr
 from netaddr import IPAddress, IPNetwork, IPGlob, IPRange
@@ -503,6 +504,14 @@ def impl(c):
         return _try(lambda: tf(valid_nmap_range(_NONSTR[a[1]])))
     if k == 'gconv':
         s = a[1]
+        # a first round of answers whose objects the caller then moves in place (they are the caller's):
+        # the second round - the one compared - must be unaffected
+        try:
+            x0, y0 = glob_to_iptuple(s)
+            c0 = glob_to_cidrs(s)
+            common.disturb(x0, y0, *c0)
+        except Exception:
+            pass
 
         def t():
             x, y = glob_to_iptuple(s)
@@ -541,10 +550,16 @@ def impl(c):
         return ' '.join(_try(f) for f in (t, r, g, cl, st))
     if k == 'r2g':
         _, ver, lo, hi = a
-        return _try(lambda: plist(hexs(g) for g in iprange_to_globs(IPAddress(lo, ver), IPAddress(hi, ver))))
+        def r2g():
+            x, y = common.make_addr(ver, lo), common.make_addr(ver, hi)
+            out = iprange_to_globs(x, y)
+            if (int(x), int(y)) != (lo, hi):
+                return '!arguments-modified'
+            return plist(hexs(g) for g in out)
+        return _try(r2g)
     if k == 'c2g':
         _, ver, v, p = a
-        return _try(lambda: hexs(cidr_to_glob(IPNetwork((v, p), version=ver))))
+        return _try(lambda: hexs(cidr_to_glob(common.make_net(ver, v, p))))
     if k == 'nmap':
         def it():
             out = []
